@@ -1968,14 +1968,14 @@ func (t *c14tState) caseTx() {
 				if nameOnly {
 					c.Count("info:tx-json-nonutf8-toname-hash-changed")
 				} else {
-					t.fail("c14/tx-json-hash", "Hash() "+h0+" -> "+hj+" after JSON round trip"+bad+"; tx "+c14tStr(desc), string(js))
+					t.fail(c14tJSONSig(meta.badMsgUTF8, "tx-json-hash"), "Hash() "+h0+" -> "+hj+" after JSON round trip"+bad+"; tx "+c14tStr(desc), string(js))
 				}
 			}
 			if sj := c14tAllSigners(j); sj != s0 {
 				if nameOnly {
 					c.Count("info:tx-json-nonutf8-toname-signers-changed")
 				} else {
-					t.fail("c14/tx-json-signers", "signers before: "+s0+" after JSON: "+sj+bad, string(js))
+					t.fail(c14tJSONSig(meta.badMsgUTF8, "tx-json-signers"), "signers before: "+s0+" after JSON: "+sj+bad, string(js))
 				}
 			}
 			if enc != nil {
@@ -1984,7 +1984,7 @@ func (t *c14tState) caseTx() {
 					if nameOnly {
 						c.Count("info:tx-json-nonutf8-toname-rlp-changed")
 					} else {
-						t.fail("c14/tx-json-rlp", "RLP of the JSON-round-tripped tx differs: "+c14tErrStr(err, pan)+" "+c14tHex(ej)+bad, c14tHex(enc))
+						t.fail(c14tJSONSig(meta.badMsgUTF8, "tx-json-rlp"), "RLP of the JSON-round-tripped tx differs: "+c14tErrStr(err, pan)+" "+c14tHex(ej)+bad, c14tHex(enc))
 					}
 				}
 			}
@@ -1996,6 +1996,15 @@ func (t *c14tState) caseTx() {
 	if enc != nil {
 		t.mutations(c14tFamTx, enc)
 	}
+}
+
+// c14tJSONSig: a JSON mismatch of a tx that carries a non-UTF-8 message is the known mechanism
+// (encoding/json replaces the bytes by U+FFFD); any other JSON mismatch keeps its own signature.
+func c14tJSONSig(nonUTF8 bool, what string) string {
+	if nonUTF8 {
+		return "c14/json-non-utf8/" + what
+	}
+	return "c14/" + what
 }
 
 // checkBox: GetBox(data).SubTxList hashes equal the original sub-tx hashes.
@@ -2035,7 +2044,7 @@ func (t *c14tState) checkBox(stage string, tx *types.Transaction, meta *c14tTxMe
 				continue
 			}
 			t.c.Count(fmt.Sprintf("info:box-subtx-hash-changed-cause:nonutf8-message=%v", meta.badMsgUTF8))
-			t.fail("c14/box-subtx-hash", fmt.Sprintf("(%s) sub-tx %d: hash %s when packed, %s after GetBox%s; sub-tx now %s", stage, i, meta.subHashes[i].Hex(), got, why, c14tTxString(s)), string(tx.Data()))
+			t.fail(c14tJSONSig(meta.badMsgUTF8, "box-subtx-hash"), fmt.Sprintf("(%s) sub-tx %d: hash %s when packed, %s after GetBox%s; sub-tx now %s", stage, i, meta.subHashes[i].Hex(), got, why, c14tTxString(s)), string(tx.Data()))
 		}
 	}
 }
@@ -2597,48 +2606,6 @@ func (t *c14tState) mutate(f *c14tFam, base []byte) (string, []byte) {
 	return class, b
 }
 
-// c14tDiffWhere locates the first top-level element in which two encodings of "the same" object differ.
-func c14tDiffWhere(fam string, wire, re []byte) string {
-	slice := fam == "blocks" || fam == "changelogs" || fam == "deputynodes" || fam == "netmsg-txs" || fam == "netmsg-Transactions"
-	a, oka := c14tSplit(wire)
-	b, okb := c14tSplit(re)
-	if !oka || !okb {
-		return "head"
-	}
-	if len(a) != len(b) {
-		return "len"
-	}
-	for i := range a {
-		if !bytes.Equal(a[i], b[i]) {
-			if slice {
-				return "elem"
-			}
-			w := fmt.Sprintf("f%d", i)
-			// one more level for nested structs (block header, block body lists)
-			if fam == "block" {
-				x, okx := c14tSplit(a[i])
-				y, oky := c14tSplit(b[i])
-				switch {
-				case !okx || !oky:
-				case len(x) != len(y):
-					w += ".len"
-				case i == 0:
-					for j := range x {
-						if !bytes.Equal(x[j], y[j]) {
-							w += fmt.Sprintf(".f%d", j)
-							break
-						}
-					}
-				default:
-					w += ".elem"
-				}
-			}
-			return w
-		}
-	}
-	return "head"
-}
-
 func (t *c14tState) checkMut(f *c14tFam, class string, b []byte) {
 	c := t.c
 	v := f.fresh()
@@ -2678,15 +2645,23 @@ func (t *c14tState) checkMut(f *c14tFam, class string, b []byte) {
 		_, _ = c14tTry(func() error { h = l.Hash(); return nil })
 		detail += "; Hash()=" + h.Hex() + " keccak(wire)=" + crypto.Keccak256Hash(b).Hex() + "; decoded: " + c14tLogString(l)
 	}
+	// root-cause class from the INNERMOST typed field at which the accepted bytes and the re-encoding first
+	// differ (c14_classify.go) — independent of the wrapping type, the position and the mutation used.
+	cause, path := "cannot-reencode", ""
+	if eerr == nil && epan == "" {
+		cause, path = c14kClassify(c14kFamilyTy(f.name), f.canon(b), f.canon(re), f.name)
+		switch cause {
+		case "untyped":
+			cause = "untyped/" + f.name
+		case "leaf":
+			cause = "field/" + f.name
+		}
+	}
+	c.Count("typed:" + f.name + ":noncanonical:" + cause + ":" + class)
 	if f.hashed {
-		// signature suffix = WHERE the accepted bytes and their re-encoding first differ (top-level field of
-		// the object; "elem" for slice families; "len" when the number of fields differs; "head" when only the
-		// outer header differs) — stable across mutation classes, aligned with the root cause.
-		where := c14tDiffWhere(f.name, b, re)
-		t.fail("c14/"+f.name+"-noncanonical-accept/"+where, "mutation "+class+": "+detail, c14tHex(b))
-		c.Count("typed:" + f.name + ":noncanonical:" + where + ":" + class)
+		t.fail("c14/noncanonical-accept/"+cause, "decoded as "+f.name+", differs at "+path+", mutation "+class+": "+detail, c14tHex(b))
 	} else {
-		c.Count("info:" + f.name + "-noncanonical-accept:" + class)
+		c.Count("info:" + f.name + "-noncanonical-accept:" + cause)
 	}
 }
 
